@@ -338,7 +338,28 @@ def conventions(rep, tier, timeout):
         for a_ in range(6):
             obs.append(oblig.Ob("clamp row %d" % a_, lhs=Kf[6 * nyf + a_, 6 * (nyh - 1) + a_], rhs=Kh[6 * nyh + a_, 6 * (nyh - 1) + a_],
                                 meta={"family": "full-span and half-span models clamp the same (centre / symmetry-plane) node", "idx": [a_, a_]}))
-        run_obligations(rep, "FEM stiffness half vs full [%s]" % lab, obs, timeout, levels=(1, 2), family=lambda ob: "FEM: half model vs full model, " + ob.meta["family"])
+        def fem_rp(ob, env, chh=chh, chf=chf, nodes=nodes, nodes_f=nodes_f, Aa2=Aa2, Iy=Iy, Iz=Iz, Jj=Jj, nyh=nyh, nyf=nyf):
+            envf = model.FillEnv(env)
+            vh = num_inputs({"nodes": nodes, "A": Aa2, "Iy": Iy, "Iz": Iz, "J": Jj}, envf)
+            vf = num_inputs({"nodes": nodes_f, "A": ext_span_scalar(Aa2), "Iy": ext_span_scalar(Iy), "Iz": ext_span_scalar(Iz), "J": ext_span_scalar(Jj)}, envf)
+            Kh_ = chh.real_K(vh["nodes"], vh["A"], vh["Iy"], vh["Iz"], vh["J"])
+            Kf_ = chf.real_K(vf["nodes"], vf["A"], vf["Iy"], vf["Iz"], vf["J"])
+            r, c = ob.meta["idx"]
+            if ob.id.startswith("clamp"):
+                got, ref = Kf_[6 * nyf + r, 6 * (nyh - 1) + c], Kh_[6 * nyh + r, 6 * (nyh - 1) + c]
+            elif ob.id.endswith("== 0"):
+                got, ref = Kf_[r, c], 0.0
+            else:
+                got, ref = Kf_[r, c], Kh_[r, c]
+            return model.differs(got, ref, 1e-7), "%s: full-span model %.9g, half-span model %.9g" % (ob.id, got, ref)
+
+        nomf = {}
+        for j in range(nyh):
+            nomf.update({"nodes[%d,0]" % j: 0.2 * (nyh - 1 - j), "nodes[%d,1]" % j: -1.5 * (nyh - 1 - j), "nodes[%d,2]" % j: 0.05 * (nyh - 1 - j)})
+        for e in range(nym):
+            nomf.update({"A[%d]" % e: 0.01 + 0.001 * e, "Iy[%d]" % e: 2e-5, "Iz[%d]" % e: 3e-5, "J[%d]" % e: 4e-5})
+        run_obligations(rep, "FEM stiffness half vs full [%s]" % lab, obs, timeout, levels=(1, 2), replay=fem_rp, nominal=nomf,
+                        family=lambda ob: "FEM: half model vs full model, " + ob.meta["family"])
     return
 
 
